@@ -140,6 +140,7 @@ int sim_setsockopt(int fd, int level, int optname, const void *optval, socklen_t
 	SYSCALL("setsockopt"); (void)optlen;
 	KFd *k = checked(fd, "setsockopt", M(FD_SOCKNEW) | M(FD_LISTEN) | M(FD_STREAM));
 	if (!k) return -1;
+	if (k->kind == FD_STREAM && k->cfg_fail_at && ++k->cfg_calls == k->cfg_fail_at) { if (g_hooks) g_hooks->on_file_op("sockcfg-fault", k->cfg_fail_errno); errno = k->cfg_fail_errno; return -1; }
 	if (level == IPPROTO_IPV6 && optname == IPV6_V6ONLY && optval) k->v6only = *(const int *)optval != 0;
 	return 0;
 }
@@ -149,6 +150,7 @@ int sim_fcntl(int fd, int cmd, ...) {
 	va_list ap; va_start(ap, cmd); long arg = va_arg(ap, long); va_end(ap);
 	KFd *k = checked(fd, "fcntl", ~0);
 	if (!k) return -1;
+	if (k->kind == FD_STREAM && k->cfg_fail_at && ++k->cfg_calls == k->cfg_fail_at) { if (g_hooks) g_hooks->on_file_op("sockcfg-fault", k->cfg_fail_errno); errno = k->cfg_fail_errno; return -1; }
 	if (cmd == F_GETFL) return O_RDWR;
 	if (cmd == F_SETFL) { (void)arg; return 0; }
 	return 0;
@@ -191,6 +193,7 @@ int sim_getsockname(int fd, struct sockaddr *addr, socklen_t *addrlen) {
 	SYSCALL("getsockname");
 	KFd *k = checked(fd, "getsockname", M(FD_SOCKNEW) | M(FD_LISTEN) | M(FD_STREAM));
 	if (!k) return -1;
+	if (k->kind == FD_STREAM && k->cfg_fail_at && ++k->cfg_calls == k->cfg_fail_at) { if (g_hooks) g_hooks->on_file_op("sockcfg-fault", k->cfg_fail_errno); errno = k->cfg_fail_errno; return -1; }
 	struct sockaddr_storage ss; memset(&ss, 0, sizeof ss);
 	ss.ss_family = (sa_family_t)k->sock_family;
 	socklen_t n = k->sock_family == AF_INET ? sizeof(struct sockaddr_in) : k->sock_family == AF_INET6 ? sizeof(struct sockaddr_in6) : sizeof(sa_family_t);
